@@ -166,6 +166,18 @@ def body_eq(case, ctx):
     elif mode == "shorter" and n:
         fs2 = [f[:-1] for f in fs2]
         expect = False
+    if mode == "views" and n >= 2:
+        # two overlapping selections of the SAME object: equal exactly when their contents are
+        i, j = case["j"] % n, case["p"] % n
+        L = 1 + (case["j"] + case["p"]) % (n - max(i, j))
+        va, vb = o1[i:i + L], o1[j:j + L]
+        expect = all(np.array_equal(f[i:i + L], f[j:j + L]) for f in fs)
+        ctx.label("k:%d" % k, "views:" + ("same-window" if i == j else "shifted-window"), "expect-equal" if expect else "expect-unequal:views")
+        ctx.nt(i != j)
+        got = lib(lambda: va == vb)
+        if not got.ok or bool(got.value) != expect:
+            raise Violation("eq:overlapping-views", expected=expect, got=got.brief(), windows=[i, j, L])
+        return
     ctx.label("k:%d" % k, "expect-equal" if expect else "expect-unequal:" + mode)
     ctx.nt(k >= 2)
     o2 = cls(k)(*fs2)
@@ -278,7 +290,7 @@ def concat_case(draw, tier):
 @st.composite
 def eq_case(draw, tier):
     fields, n = draw(fields_st())
-    return {"fields": fields, "n": n, "mode": draw(st.sampled_from(["same", "change", "change", "shorter"])),
+    return {"fields": fields, "n": n, "mode": draw(st.sampled_from(["same", "change", "change", "shorter", "views", "views"])),
             "j": draw(st.integers(0, 3)), "p": draw(st.integers(0, 1000))}
 
 
